@@ -405,6 +405,12 @@ func (brc *baseRewardsCreator) addProtocolRewardToMiniBlocks(
 	miniBlocks block.MiniBlockSlice,
 	protocolSustainabilityShardId uint32,
 ) error {
+	if protocolSustainabilityRwdTx.Value.Sign() == 0 {
+		// nothing to give to the protocol sustainability address: do not create a zero-value reward tx
+		brc.protocolSustainabilityValue.Set(protocolSustainabilityRwdTx.Value)
+		return nil
+	}
+
 	protocolSustainabilityRwdHash, errHash := core.CalculateHash(brc.marshalizer, brc.hasher, protocolSustainabilityRwdTx)
 	if errHash != nil {
 		return errHash
